@@ -226,7 +226,6 @@ func zeroValue(t types.Type) Value {
 	panic(fmt.Sprintf("zeroValue: unsupported type %v (%T)", t, t.Underlying()))
 }
 
-
 // newCell creates a cell tree holding v (an Agg becomes sub-cells).
 func newCell(v Value) *Cell {
 	c := &Cell{}
